@@ -216,8 +216,8 @@ theorem complete_calls_gen {s : Simp} (hs : SimpSound s) {o : Oracle} (ho : Orac
     ⟨initC env codes this, List.mem_singleton.2 rfl, Sat.nil I, w, f0, [], relC_init hR0 hthis hd0 hcb hS0 hz, ⟨n, hex⟩,
       fun hC => ⟨hbound hC, fun kc hm => absurd hm List.not_mem_nil⟩⟩
 
-/-- **C02.complete_calls** (statement and commentary above; `hnc`: CREATE is not followed — it ends the path stuck;
-    `wd w ce.created ce.nonce`: see `C01.sound_calls`). -/
+/-- **C02.complete_calls** (statement and commentary above; `hnc`: CREATE is not followed — it ends the path stuck, and
+    nothing is ever created: `runC_noCr`). -/
 theorem complete_calls {s : Simp} (hs : SimpSound s) {o : Oracle} (ho : OracleSound o) (cfg : Cfg) (env : Env)
     (codes : List (Nat × List Nat)) (this : Nat) (fuel : Nat) (p : Evm.Params) (w : Evm.World)
     (hmem : cfg.maxMem + 32 ≤ p.memLimit) (hdep : 1024 ≤ p.maxDepth)
@@ -231,30 +231,36 @@ theorem complete_calls {s : Simp} (hs : SimpSound s) {o : Oracle} (ho : OracleSo
     (n : Nat) (w' : Evm.World) (h : Evm.Halt) (hex : Evm.exec p n w f0 = some (w', h)) :
     (∃ ce ∈ (runC s o cfg env codes this fuel).ends, Sat I ce.e.st.path ∧
         ((∃ h0, ce.e.out = .halt h0 ∧ haltWith h0 (ce.e.data.map (·.eval I)) = h ∧ ce.e.tag = .normal ∧
-            WRelM I (Modelled codes this) (wd w ce.created ce.nonce) w' (stoOf ce.stores) (evalLogs I ce.logs)
-              (balSem I w ce.bal) ∧
+            WRelM I (Modelled codes this) w w' (stoOf ce.stores) (evalLogs I ce.logs) (balSem I w ce.bal) ∧
             (∀ b ∈ ce.e.data, b.WF ∧ b.width = 8)) ∨
          (∃ r, ce.e.out = .stuck r) ∨ ce.e.tag ≠ .normal)) ∨
     (runC s o cfg env codes this fuel).boundedLoops ≠ [] ∨
     (runC s o cfg env codes this fuel).depthCut = true ∨
-    (runC s o cfg env codes this fuel).outOfFuel = true :=
-  complete_calls_gen hs ho cfg env codes this fuel p w (Modelled codes this) (Or.inl rfl)
+    (runC s o cfg env codes this fuel).outOfFuel = true := by
+  rcases complete_calls_gen hs ho cfg env codes this fuel p w (Modelled codes this) (Or.inl rfl)
     (fun _ _ h => modelled_of_code h) hmem hdep hcodes hcb hz (CreateHyp.off hnc) I hI hbal hbound hsha hshaok f0 hR0
-    hthis hd0 n w' h hex
+    hthis hd0 n w' h hex with ⟨ce, hm, hsat, hc⟩ | hr
+  · refine Or.inl ⟨ce, hm, hsat, ?_⟩
+    rcases hc with ⟨h0, a1, a2, a3, hW, a5⟩ | hc
+    · obtain ⟨hc0, hn0⟩ := runC_noCr hnc ce hm
+      rw [hc0, hn0, wd_zero] at hW
+      exact Or.inl ⟨h0, a1, a2, a3, hW, a5⟩
+    · exact Or.inr hc
+  · exact Or.inr hr
 
-/-- **C02.complete_calls_create_partial.** The same with CREATE followed; PARTIAL exactly as
-    `C01.sound_calls_create_partial` (balances layer off: a CREATE with a value is an error report, which covers the
-    run; hypotheses `hcv`, `hal`, `hbw`, `hz` over `ModelledC` as there). -/
-theorem complete_calls_create_partial {s : Simp} (hs : SimpSound s) {o : Oracle} (ho : OracleSound o) (cfg : Cfg)
+/-- **C02.complete_calls_create.** The same with CREATE followed (`hcr`), with or without the balances layer; the
+    hypotheses `hal`, `hbw`, `hz` over `ModelledC` and what is covered as in `C01.sound_calls_create`. -/
+theorem complete_calls_create {s : Simp} (hs : SimpSound s) {o : Oracle} (ho : OracleSound o) (cfg : Cfg)
     (env : Env) (codes : List (Nat × List Nat)) (this : Nat) (fuel : Nat) (p : Evm.Params) (w : Evm.World)
     (hmem : cfg.maxMem + 32 ≤ p.memLimit) (hdep : 1024 ≤ p.maxDepth)
     (hcodes : ∀ a, w.codeOf a = codeOf codes a)
     (hcb : ∀ a prog, codeOf codes a = some prog → ∀ b ∈ prog, b < 256)
     (hz : ∀ a, ModelledC cfg codes this a → C01.ZeroStorage w a)
-    (hcr : cfg.create = true) (hcv : cfg.balances = false)
+    (hcr : cfg.create = true)
     (hal : ∀ n, p.newAddress (w.created + n) = (cfg.allocBase + n) % 2 ^ 160)
     (hbw : ∀ a, w.balanceOf a < 2 ^ 256)
-    (I : Interp) (hI : I.Std) (hsha : cfg.sha3 = true → ShaInterp I p cfg)
+    (I : Interp) (hI : I.Std) (hbal : cfg.balances = true → BalHyp I cfg w)
+    (hbound : cfg.balances = true → BalBound w) (hsha : cfg.sha3 = true → ShaInterp I p cfg)
     (hshaok : ∀ cs, VisitedC s o cfg codes (initC env codes this) cs → ShaOK I s cfg cs) (f0 : Evm.Frame)
     (hR0 : R I env ((codeOf codes this).getD []) p initState f0) (hthis : f0.this = this) (hd0 : f0.depth = 0)
     (n : Nat) (w' : Evm.World) (h : Evm.Halt) (hex : Evm.exec p n w f0 = some (w', h)) :
@@ -269,8 +275,7 @@ theorem complete_calls_create_partial {s : Simp} (hs : SimpSound s) {o : Oracle}
     (runC s o cfg env codes this fuel).outOfFuel = true :=
   complete_calls_gen hs ho cfg env codes this fuel p w (ModelledC cfg codes this) (Or.inl (Or.inl rfl))
     (fun _ _ h => Or.inl (modelled_of_code h)) hmem hdep hcodes hcb hz
-    (fun hc => ⟨hcv, hal, fun n => Or.inr ⟨hc, n, rfl⟩, hbw⟩) I hI (fun h' => by rw [hcv] at h'; cases h')
-    (fun h' => by rw [hcv] at h'; cases h') hsha hshaok f0 hR0 hthis hd0 n w' h hex
+    (fun hc => ⟨hal, fun n => Or.inr ⟨hc, n, rfl⟩, hbw⟩) I hI hbal hbound hsha hshaok f0 hR0 hthis hd0 n w' h hex
 
 /-- `complete_calls` on the caller / callee pair of Props.C01: the reference EVM returns the callee's 32 bytes; no
     flag is raised in that run and its only end is an untagged halt, so it must be the reporting one -/
